@@ -158,7 +158,7 @@ static void do_tar(const uint8_t *data, size_t size, size_t bufsz)
 	sqfs_drop(it);
 }
 
-static char emptydir[64];
+static char emptydir[300];
 
 static void do_pack(const uint8_t *data, size_t size, size_t bufsz, unsigned int sel)
 {
@@ -261,12 +261,23 @@ static void do_xattr(const uint8_t *data, size_t size)
 	close(fd);
 }
 
+static void remove_emptydir(void)
+{
+	rmdir(emptydir);
+}
+
 int LLVMFuzzerInitialize(int *argc, char ***argv)
 {
 	(void)argc; (void)argv;
-	strcpy(emptydir, "/tmp/fz_packer_XXXXXX");
-	if (mkdtemp(emptydir) == NULL)
-		strcpy(emptydir, "/nonexistent");
+	{
+		/* an empty directory for glob lines to scan; removed again at exit */
+		const char *t = getenv("TMPDIR");
+		snprintf(emptydir, sizeof(emptydir), "%s/fz_packer_XXXXXX", (t && strlen(t) < 200) ? t : "/tmp");
+		if (mkdtemp(emptydir) == NULL)
+			strcpy(emptydir, "/nonexistent");
+		else
+			atexit(remove_emptydir);
+	}
 	if (freopen("/dev/null", "w", stdout) == NULL) {}
 	if (!getenv("VERIF_FZ_KEEP_STDERR")) {
 		/* the parsers print a diagnostic for every rejected input; sanitizer reports go to ASAN_OPTIONS=log_path */
